@@ -123,7 +123,10 @@ def main():
             evidence_file='evidence/%s.json' % pid,
             replay_cmd_template='./check.py %s --replay {path}' % pid,
             engine='vf',
-            level_claimed=dict(category='exploration', text=text, design_ref=ref),
+            level_claimed=dict(category='exploration', text=text + ' The exact case definition of the current generators '
+                               '(placement of code and data, control-register noise, boundary solving, field-product sweeps ...) is the '
+                               '"rule" field of the evidence file; DESIGN.md §10.5 says which seeded change prompted which dimension.',
+                               design_ref=ref),
             level_note=note,
             technique=tech))
     na = []
